@@ -186,6 +186,7 @@ def check_config(cfg, rep, tier='quick'):
         all_langs = [l for l in all_langs if l != 'und']
         regions = sorted({tab.dec(k[0], 4, order).decode() for k in tabs['REGION_ONLY']})
         bad2, bad3 = [], []
+        nonrtl = []
         try:
             probe_langs = [None] + rtl_langs + [l for l in all_langs if l not in rtl_langs][:40] + ['xx', 'qqq']
             for sname, role in sorted(exp_scripts.items()):
